@@ -87,8 +87,9 @@ Section Assoc.
     match l with [] => None | (k', v) :: r => if eqb k k' then Some v else aget k r end.
   Fixpoint aset (k : K) (v : V) (l : list (K * V)) : list (K * V) :=
     match l with [] => [(k, v)] | (k', v') :: r => if eqb k k' then (k, v) :: r else (k', v') :: aset k v r end.
+  (* Go's delete(m, k): no entry for k remains *)
   Fixpoint adel (k : K) (l : list (K * V)) : list (K * V) :=
-    match l with [] => [] | (k', v') :: r => if eqb k k' then r else (k', v') :: adel k r end.
+    match l with [] => [] | (k', v') :: r => if eqb k k' then adel k r else (k', v') :: adel k r end.
 End Assoc.
 
 Definition sn_eqb (a b : Z * Z) : bool := (fst a =? fst b) && (snd a =? snd b).
